@@ -125,6 +125,62 @@ theorem c02_uprp_values_kept_any (cfg : RichCfg) (recs : List (List Nat))
   · simp only [hz, Bool.false_eq_true, ↓reduceIte]
     simp only [encodeCuwp, decodeCuwp, take5_getD5 _ (h6 _)]
 
+/-- **every entry of the sound table keeps what the game reads of it, for EVERY 512-entry table on which the save
+succeeds**: entry `i` of the output is 0 exactly when entry `i` of the input is 0, and otherwise is an id that resolves
+to the SAME path text as the input's id -/
+theorem c02_wav_values_kept (cfg : RichCfg) (ctx : EncCtx) (ids out : List Nat)
+    (hlen : ids.length = cfg.wavSlots)
+    (h : encodeWav cfg ctx (decodeWavIds ctx.texts ids) = .ok out)
+    (i : Nat) (hi : i < ids.length) :
+    (ids[i] = 0 → out.getD i 0 = 0) ∧
+    (ids[i] ≠ 0 → idByStr ctx.texts (strById ctx.texts ids[i]) = .ok (out.getD i 0) ∧
+      strById ctx.texts (out.getD i 0) = strById ctx.texts ids[i]) := by
+  unfold encodeWav at h
+  obtain ⟨hl, hall⟩ := mapR_ok h
+  have hir : i < (List.range cfg.wavSlots).length := by simpa [hlen] using hi
+  have hio : i < out.length := by rw [hl]; exact hir
+  have hgo : out.getD i 0 = out[i] := by simp [List.getD, hio]
+  have hk := hall i hir hio
+  simp only [List.getElem_range] at hk
+  let f : Nat → Option RWav := fun j =>
+    if ids.getD j 0 ≠ 0 then some (⟨strById ctx.texts (ids.getD j 0), j⟩ : RWav) else none
+  have hkey : ∀ j a, f j = some a → a.idx = j := by
+    intro j a hfa
+    simp only [f] at hfa
+    split at hfa
+    · cases hfa; rfl
+    · cases hfa
+  have huniq : ∀ a ∈ (List.range ids.length).filterMap f, ∀ b ∈ (List.range ids.length).filterMap f,
+      (a.idx == i) = true → (b.idx == i) = true → a = b := by
+    intro a ha b hb pa pb
+    obtain ⟨ja, _, hfa⟩ := filterMap_range_mem f _ a ha
+    obtain ⟨jb, _, hfb⟩ := filterMap_range_mem f _ b hb
+    have h1 := hkey ja a hfa
+    have h2 := hkey jb b hfb
+    simp at pa pb
+    have : ja = jb := by omega
+    subst this
+    rw [hfa] at hfb; cases hfb; rfl
+  have hfind : (decodeWavIds ctx.texts ids).reverse.find? (fun w => w.idx == i) = f i := by
+    unfold decodeWavIds
+    rw [find?_reverse_of_unique _ _ huniq, find?_filterMap_range f (·.idx) hkey _ i hi]
+  rw [hfind] at hk
+  have hget : ids.getD i 0 = ids[i] := by simp [List.getD, hi]
+  simp only [f, hget] at hk
+  constructor
+  · intro hz
+    rw [hz] at hk
+    simp at hk
+    rw [hgo]; exact hk.symm
+  · intro hz
+    rw [if_pos hz] at hk
+    simp only at hk
+    obtain ⟨id', h1, h2⟩ := str_reference_preserved ctx.texts ids[i]
+    have : id' = out[i] := by rw [h1] at hk; cases hk; rfl
+    subst this
+    rw [hgo]
+    exact ⟨h1, h2⟩
+
 /-- **the location table, unit-property table and sound table are rewritten exactly** when they are
 in editor form (C03 section identities): restated here because "every section keeps its size, every
 numeric setting its value" is the C02 reading of the same facts -/
